@@ -29,7 +29,7 @@ M == INSTANCE PegMachine WITH Nodes <- TableNodes, W <- w, Cfg <- cfg
 
 MachineOps == {"seq", "sor", "star", "star_partial", "plus", "opt", "partial", "at", "not_at", "must", "try_catch_return_false", "raise",
                "if_must", "opt_must", "until", "rep", "rep_opt", "rep_min_max", "if_then_else", "enable", "disable", "action",
-               "try_catch_raise_nested"}
+               "try_catch_raise_nested", "apply", "apply0", "if_apply", "strict", "star_strict", "control"}
 RECURSIVE Reach(_, _)
 Reach(todo, seen) ==
    IF todo = {} THEN seen
@@ -41,13 +41,14 @@ Supported(ev) ==
    /\ ev.cls = 0 /\ ev.xt = 0 /\ ev.af \in 0..3 /\ ev.ib = 0
    /\ \A x \in Reach({ev.g}, {}) :
          /\ (TableNodes[x].iop \in MachineOps \/ M!IsAtom(x))
+         /\ (TableNodes[x].iop \in {"strict", "star_strict"} => M!RestOf(TableNodes[x].ikids) # {})
          /\ (TableNodes[x].iop = "raise" => TableNodes[x].ip # <<>> /\ TableNodes[x].ip[1] > 0)
          /\ M!AKindOf(x, ev.af) \in 0..7
 
 Init == /\ l = 1 /\ w = <<>> /\ cfg = [g |-> 1, A |-> 1, M |-> 1, af |-> 0, cf |-> 1, eol |-> 3, ib |-> 0, il |-> 1, ic |-> 1]
         /\ fr = <<>> /\ cur = 0 /\ ret = -1 /\ exc = M!NoExc /\ q = <<>> /\ done = -1
         /\ skip = TRUE /\ steps = 0
-        /\ log = [cases |-> 0, compared |-> 0, skipped |-> 0, drift |-> <<>>, ndrift |-> 0]
+        /\ log = [cases |-> 0, compared |-> 0, skipped |-> 0, limited |-> 0, drift |-> <<>>, ndrift |-> 0]
 
 \* does the emitted event e coincide with the recorded event r in everything the model determines?
 Same(e, r) ==
@@ -58,6 +59,8 @@ Same(e, r) ==
         [] e.k \in {"st", "su", "fa", "uw", "ra"} -> e.r = r.r /\ e.o = r.o
         [] e.k = "ap" -> e.r = r.r /\ e.o = r.o /\ e.eo = r.eo /\ e.v = r.v
         [] e.k = "a0" -> e.r = r.r /\ e.v = r.v
+        [] e.k = "ia" -> e.n = r.n /\ e.o = r.o /\ e.eo = r.eo /\ e.v = r.v
+        [] e.k = "i0" -> e.n = r.n /\ e.v = r.v
         [] OTHER -> FALSE
 
 Drift(what, e) == [log EXCEPT !.ndrift = @ + 1,
@@ -70,7 +73,7 @@ Next ==
       THEN \* a new run: start the machine on the same grammar, input and configuration
            /\ w' = ev.w
            /\ cfg' = [g |-> ev.g, A |-> ev.A, M |-> ev.M, af |-> ev.af, cf |-> ev.cf, eol |-> ev.eol, ib |-> ev.ib, il |-> ev.il, ic |-> ev.ic]
-           /\ fr' = <<M!Frame(ev.g, ev.A, ev.M, ev.af)>>
+           /\ fr' = <<M!Frame(ev.g, ev.A, ev.M, ev.af, ev.cf)>>
            /\ cur' = 0 /\ ret' = -1 /\ exc' = M!NoExc /\ q' = <<>> /\ done' = -1 /\ steps' = 0
            /\ skip' = ~Supported(ev)
            /\ log' = [log EXCEPT !.cases = @ + 1, !.skipped = @ + (IF Supported(ev) THEN 0 ELSE 1)]
@@ -80,6 +83,10 @@ Next ==
       ELSE IF q # <<>>
       THEN IF Same(Head(q), ev)
            THEN M!Emit /\ l' = l + 1 /\ UNCHANGED <<w, cfg, skip, steps, log>>
+           ELSE IF ev.k = "xc" /\ ev.x = 4
+           THEN \* the harness (not PEGTL) cut the run short: its event budget or nesting limit; nothing left to compare
+                /\ log' = [log EXCEPT !.limited = @ + 1] /\ skip' = TRUE /\ l' = l + 1
+                /\ UNCHANGED <<w, cfg, fr, cur, ret, exc, q, done, steps>>
            ELSE /\ log' = Drift("event", Head(q)) /\ skip' = TRUE /\ l' = l + 1
                 /\ UNCHANGED <<w, cfg, fr, cur, ret, exc, q, done, steps>>
       ELSE IF done = -1
